@@ -1,4 +1,4 @@
-CONSTANTS Strict = FALSE  JudgeEvaluator = TRUE
+CONSTANTS Strict = FALSE  JudgeEvaluator = FALSE
 INIT TraceInit
 NEXT TraceNext
 POSTCONDITION AllConsumed
